@@ -15,6 +15,7 @@ import (
 	"testing"
 	"time"
 
+	"github.com/gotid/god/api/handler"
 	"github.com/gotid/god/api/httpx"
 	"github.com/gotid/god/api/router"
 	"github.com/gotid/god/internal/verifdrv"
@@ -29,6 +30,24 @@ type verifCase struct {
 	Pattern string         `json:"pattern"` // route with :name segments, e.g. /api/:id/items/:name
 	Direct  *verifDirect   `json:"direct"`  // httpx.Parse called directly on a constructed request
 	Conc    *verifConc     `json:"conc"`    // two overlapping requests to the same route
+	Chain   string         `json:"chain"`   // middleware in front of the route: "" | log | detailed | security | all
+}
+
+// verifChain puts the middlewares every api.Server route has in front of the router: the log handlers duplicate the
+// request body for logging; the content-security handler (no decryptors, not strict) lets unsigned requests through.
+func verifChain(chain string, h http.Handler) http.Handler {
+	sec := handler.ContentSecurityHandler(nil, time.Hour, false)
+	switch chain {
+	case "log":
+		return handler.LogHandler(h)
+	case "detailed":
+		return handler.DetailedLogHandler(h)
+	case "security":
+		return sec(h)
+	case "all":
+		return handler.LogHandler(handler.DetailedLogHandler(sec(h)))
+	}
+	return h
 }
 
 // verifConc: request A is routed and held inside its handler while request B (other path values) is routed, handled
@@ -217,7 +236,7 @@ func TestVerifDriver(t *testing.T) {
 			return map[string]any{"error": "route: " + err.Error()}
 		}
 		mu.Lock()
-		current = rt
+		current = verifChain(c.Chain, rt)
 		mu.Unlock()
 
 		var req *http.Request
